@@ -702,3 +702,88 @@ pub fn gen_neg_order_family(r: &mut Rng) -> (Program, Edb, Vec<&'static str>) {
     edb.push((2, (0..5).filter(|_| r.chance(3, 4)).map(|x| Tuple::new(vec![Value::Int64(x)])).collect()));
     (Program { clauses }, edb, vec!["negation", "negated-relation-defined-later"])
 }
+
+
+/// The ANSWER relation itself is recursive (the last rules of the program define a recursive head):
+/// plain binary transitive closure (the engine's fast path), its variants, and unary reachability with
+/// an optional negated stored relation; graphs with shortcut edges and cycles.
+pub fn gen_rec_query_family(r: &mut Rng) -> (Program, Edb, Vec<&'static str>) {
+    use Lit::*;
+    let v = |i: u32| Term::Var(i);
+    let clauses = match r.below(4) {
+        0 => vec![
+            Clause { head: 99, args: vec![HTerm::Var(0), HTerm::Var(1)], body: vec![Pos(0, vec![v(0), v(1)])] },
+            Clause { head: 99, args: vec![HTerm::Var(0), HTerm::Var(2)], body: vec![Pos(0, vec![v(0), v(1)]), Pos(99, vec![v(1), v(2)])] },
+        ],
+        1 => vec![
+            Clause { head: 99, args: vec![HTerm::Var(0), HTerm::Var(1)], body: vec![Pos(0, vec![v(0), v(1)])] },
+            Clause { head: 99, args: vec![HTerm::Var(0), HTerm::Var(2)], body: vec![Pos(99, vec![v(0), v(1)]), Pos(1, vec![v(1), v(2)])] },
+        ],
+        2 => vec![
+            Clause { head: 99, args: vec![HTerm::Var(0)], body: vec![Pos(2, vec![v(0)])] },
+            Clause { head: 99, args: vec![HTerm::Var(1)], body: vec![Pos(99, vec![v(0)]), Pos(0, vec![v(0), v(1)])] },
+        ],
+        _ => vec![
+            Clause { head: 99, args: vec![HTerm::Var(0)], body: vec![Pos(2, vec![v(0)])] },
+            Clause { head: 99, args: vec![HTerm::Var(1)], body: vec![Pos(99, vec![v(0)]), Pos(0, vec![v(0), v(1)]), Neg(1, vec![v(1), v(1)])] },
+        ],
+    };
+    let n = r.range(4, 7);
+    let mut e0: Vec<Tuple> = (0..n - 1).map(|x| Tuple::new(vec![Value::Int64(x), Value::Int64(x + 1)])).collect();
+    for _ in 0..r.range(1, 4) {
+        // shortcut edges, back edges (cycles), self loops
+        let t = Tuple::new(vec![Value::Int64(r.range(0, n - 1)), Value::Int64(r.range(0, n - 1))]);
+        if !e0.contains(&t) {
+            e0.push(t);
+        }
+    }
+    let mut e1: Vec<Tuple> = vec![];
+    for _ in 0..r.range(1, 5) {
+        let t = Tuple::new(vec![Value::Int64(r.range(0, n - 1)), Value::Int64(r.range(0, n - 1))]);
+        if !e1.contains(&t) {
+            e1.push(t);
+        }
+    }
+    let e2: Vec<Tuple> = vec![Tuple::new(vec![Value::Int64(r.range(0, 1))])];
+    (Program { clauses }, vec![(0, e0), (1, e1), (2, e2)], vec!["recursive-answer-relation", "self-recursive"])
+}
+
+
+/// Joins on TWO variables whose columns come in different orders in the two atoms
+/// (`e0(A, B), e3(B, A, C)`), with a projection of a non-key column; optionally a filter.
+pub fn gen_multikey_family(r: &mut Rng) -> (Program, Edb, Vec<&'static str>) {
+    use Lit::*;
+    let v = |i: u32| Term::Var(i);
+    let right = match r.below(3) {
+        0 => vec![v(1), v(0), v(2)],
+        1 => vec![v(2), v(1), v(0)],
+        _ => vec![v(1), v(2), v(0)],
+    };
+    let mut body = if r.chance(1, 2) { vec![Pos(0, vec![v(0), v(1)]), Pos(3, right)] } else { vec![Pos(3, right), Pos(0, vec![v(0), v(1)])] };
+    if r.chance(1, 3) {
+        body.push(Cmp(CmpOp::Ge, v(2), Term::Int(r.range(0, 2))));
+    }
+    let args = match r.below(3) {
+        0 => vec![HTerm::Var(2)],
+        1 => vec![HTerm::Var(0), HTerm::Var(2)],
+        _ => vec![HTerm::Var(2), HTerm::Var(1), HTerm::Var(0)],
+    };
+    let mut e0: Vec<Tuple> = vec![];
+    let mut e3: Vec<Tuple> = vec![];
+    for _ in 0..r.range(4, 9) {
+        let (a, b, c) = (r.range(0, 3), r.range(0, 3), r.range(0, 4));
+        let t = Tuple::new(vec![Value::Int64(a), Value::Int64(b)]);
+        if !e0.contains(&t) {
+            e0.push(t);
+        }
+        for perm in [[b, a, c], [c, b, a], [b, c, a]] {
+            if r.chance(1, 2) {
+                let t3 = Tuple::new(perm.iter().map(|x| Value::Int64(*x)).collect());
+                if !e3.contains(&t3) {
+                    e3.push(t3);
+                }
+            }
+        }
+    }
+    (Program { clauses: vec![Clause { head: 99, args, body }] }, vec![(0, e0), (3, e3)], vec!["multi-key-join"])
+}
